@@ -1,7 +1,7 @@
 from __future__ import annotations
 
 import json
-from dataclasses import dataclass
+from dataclasses import dataclass, replace
 from enum import Enum, auto
 from typing import (
     TYPE_CHECKING,
@@ -250,13 +250,24 @@ class MetadorMeta:
         """
         return self._objs.keys()
 
+    def _exposed_objs(self) -> Dict[str, StoredMetadata]:
+        """Return object infos as handed out to the user.
+
+        If the node is restricted, the (raw) node an object is stored in must
+        not be handed out as it is, it is subject to the same restrictions.
+        """
+        if not any(self._node.acl.values()):
+            return self._objs
+        wrap = self._node._wrap_if_node
+        return {k: replace(v, node=wrap(v.node)) for k, v in self._objs.items()}
+
     def values(self) -> ValuesView[StoredMetadata]:
         self._node._guard_acl(NodeAcl.skel_only)
-        return self._objs.values()
+        return self._exposed_objs().values()
 
     def items(self) -> ItemsView[str, StoredMetadata]:
         self._node._guard_acl(NodeAcl.skel_only)
-        return self._objs.items()
+        return self._exposed_objs().items()
 
     # ----
 
